@@ -419,7 +419,7 @@ fn main() {
         std::process::exit(2);
     }
     let list: Vec<&str> = match suites[0] {
-        "all" => vec!["z80full", "z80memptr", "z80ccf", "zexall"],
+        "all" => vec!["z80full", "z80memptr", "z80ccf", "z80bltst", "zexall"],
         s @ ("zexall" | "z80full" | "z80memptr" | "z80ccf" | "z80bltst") => vec![s],
         other => {
             eprintln!("unknown suite '{other}'");
